@@ -939,7 +939,18 @@ def _prim_fits(name, pos, kw, v):
     if name == 'Boolean':
         return (True, None) if isinstance(v, bool) else (False, 'kind')
     if name == 'Bytes':
-        return (True, None) if isinstance(v, str) else (False, 'kind')
+        if not isinstance(v, str):
+            return False, 'kind'
+        # an example of a Bytes member is the base64 text of the bytes (json_serializer.rst: "Bytes: Base64-encoded")
+        import base64
+        import binascii
+        try:
+            raw = base64.b64decode(v.encode('ascii'), validate=True)
+        except (binascii.Error, ValueError, UnicodeEncodeError):
+            return False, 'base64'
+        if base64.b64encode(raw).decode('ascii') != v:
+            return None, 'base64-noncanonical'   # decodable but not what an encoder writes: not judged here (C10's matter)
+        return True, None
     if name == 'String':
         if not isinstance(v, str):
             return False, 'kind'
